@@ -80,12 +80,34 @@ def shared_tables_arm(c):
                 s.put(s.keys_of(who[0])[0])               # (the other operators' state stays in the shared tables only)
                 s.ckpt(list(range(1, n + 1)))
                 s.resume()
+                s.who, s.nn = who, n
                 scns.append(s.finish())
     behs, results = c06.elaborate(c, scns, "shared tables", invariants=c06.INVS)
     for r in results:
         if r.violated or r.error:
             c.errors.append("a shared-table scenario violates %s in the model (%s)\n%s" % (r.violated, r.error, r.out[-1500:]))
+    all_behs = behs
     behs = [b for b in behs if b is not None]
     payload = dict(property="C09", seed=c.seed, config=dict(MemSize=4096, Chunk=15, GC=True), behaviours=behs)
     res = vlib.run_harness("rescale", payload, timeout=3000)
     c.add_harness(res, payload, "rescaled operators sharing tables: compaction + retention + forced GC + read-back (%d scenarios)" % len(behs))
+    # the same scenarios with the operators that do NOT compact turned into "other-process" neighbours: they refer to
+    # the shared files under a different spelling of the URIs, because table files are reference counted per process
+    # (by URI): only then does a cleanup's NeedsTable round decide about a delete, as between real worker processes
+    groups = {}
+    for sc, b in zip(scns, all_behs):
+        if b is None:
+            continue
+        # the compacting operators are the aliased ones: their reference counts are then separate from those of
+        # the operators that keep needing the table (and of the first generation's operator, which wrote it)
+        alias = tuple(o - 1 for o in sc.who)
+        if len(alias) < sc.nn:
+            groups.setdefault(alias, []).append(b)
+    asked = 0
+    for alias, bs in sorted(groups.items()):
+        payload = dict(property="C09", seed=c.seed, config=dict(MemSize=4096, Chunk=15, GC=True, AliasOps=list(alias)), behaviours=bs)
+        res = vlib.run_harness("rescale", payload, timeout=3000)
+        c.add_harness(res, payload, "shared tables, compacting operators %s in 'another process' (their NeedsTable round decides) (%d scenarios)" % (list(alias), len(bs)))
+        asked += res.get("counters", {}).get("needs_table_calls", 0)
+    if not asked:
+        c.errors.append("the neighbour arm never saw a NeedsTable call (vacuous)")
